@@ -99,9 +99,10 @@ def _ubasis(draw):
 @st.composite
 def _state_spec(draw, dims=None, rmin=1, q_choices=(1.0, 0.3, 0.05)):
     d1, d2 = draw(st.sampled_from(dims or DIMS))
-    r = draw(st.integers(min(rmin, min(d1, d2)), min(d1, d2)))
+    m = min(d1, d2)
+    r = max(min(rmin, m), min(m, draw(st.integers(1, m + 2))))  # every rank occurs, full rank most often
     w = draw(st.lists(st.integers(1, 20), min_size=r, max_size=r))
-    if draw(st.integers(0, 3)) == 0:
+    if draw(st.integers(0, 5)) == 0:
         w = [w[0]] * r  # all equal on purpose
     return {"d": [d1, d2], "w": w, "q": draw(st.sampled_from(list(q_choices))), "ua": draw(_ubasis()), "ub": draw(_ubasis()), "realdtype": draw(st.booleans())}
 
@@ -404,6 +405,15 @@ def nt_schmidt_rank(case):
     return "mixed:unequal-dims" if ms["d"][0] != ms["d"][1] and not (ms["kind"] == "sep" and ms["m"] == 1) else None
 
 
+def nt_schmidt_rank_eq(case):
+    """equal local dims (the sub-check that stays meaningful while the unequal-dims defect is open)"""
+    if case["kind"] == "vec":
+        return "vec:rank>=2,nondegenerate" if len(case["st"]["w"]) >= 2 and not _degenerate(case["st"]["w"], case["st"]["q"]) else None
+    if case["kind"] == "op":
+        return "op:terms>=2" if len(case["op"]["w"]) >= 2 else None
+    return "mixed" if not (case["ms"]["kind"] == "sep" and case["ms"]["m"] == 1) else None
+
+
 # ------------------------------------------------------------------------------------------------------
 # 3. Schmidt decomposition of vectors
 # ------------------------------------------------------------------------------------------------------
@@ -616,7 +626,7 @@ def nt_mixed(case):
 # ------------------------------------------------------------------------------------------------------
 @st.composite
 def _entropy_case(draw):
-    da = draw(st.integers(1, 4))
+    da = draw(st.integers(2, 4))
     db = draw(st.integers(2, 4))
     return {
         "da": da,
@@ -664,6 +674,20 @@ def nt_entropy(case):
 # ------------------------------------------------------------------------------------------------------
 # 7. is_product on vectors (2 or 3 parties)
 # ------------------------------------------------------------------------------------------------------
+def _product_ratio(v, d):
+    """How far inside toqito's own product threshold a Kronecker product of len(d) <= 3 factors is (independent numpy
+    SVDs, following the same recursion: cut (0 1 | 2) first, then the left factor (0 | 1)); <= 1 means 'inside'."""
+    d = [int(k) for k in d]
+    if len(d) == 2:
+        return _spacing_ratio(np.asarray(v).reshape(d))
+    M = np.asarray(v).reshape(d[0] * d[1], d[2])
+    r1 = _spacing_ratio(M)
+    U, S, _ = np.linalg.svd(M, full_matrices=False)
+    r2 = _spacing_ratio((U[:, 0] * np.sqrt(S[0])).reshape(d[0], d[1]))
+    r3 = _spacing_ratio(np.asarray(v).reshape(d[0], d[1] * d[2]))
+    return max(r1, r2, r3)
+
+
 def _spacing_ratio(M):
     """second singular value of M in units of toqito's threshold prod(shape)*spacing(s0)."""
     sv = np.linalg.svd(M, compute_uv=False)
@@ -734,9 +758,7 @@ def _isprod_vector(case):
     sp = dict(case["st"])
     if "eps" in case:
         e = case["eps"]
-        sp = dict(sp, w=[1, 1], q=1.0)
-        v2, _ = _schmidt_state(sp)
-        # overwrite the coefficients: (sqrt(1-e^2), e)
+        # Schmidt coefficients (sqrt(1-e^2), e)
         U = _basis(sp["ua"][0], sp["ua"][1], sp["d"][0])
         V = _basis(sp["ub"][0], sp["ub"][1], sp["d"][1])
         v2 = np.sqrt(1 - e * e) * np.kron(U[:, 0], V[:, 0]) + e * np.kron(U[:, 1], V[:, 1])
@@ -771,9 +793,7 @@ def check_is_product_vec(case):
     dim = {"list": [int(k) for k in d], "array": np.array(d), "omitted": None}[case["dimform"]]
     if isprod:
         # assert only when the input is a product far inside the function's own fixed threshold
-        t = v.reshape(d)
-        worst = max(_spacing_ratio(t.reshape(gen.prod(d[: i + 1]), -1)) for i in range(len(d) - 1))
-        if worst > 0.25:
+        if _product_ratio(v, d) > 0.25:
             raise Inconclusive("product-only-to-rounding")
     out = is_product(_form(v, case["form"]), dim)
     req(isinstance(out, tuple) and len(out) == 2, "is_product did not return (verdict, decomposition)", "is_product:shape")
@@ -841,9 +861,7 @@ def check_is_product_op(case):
         # operator-Schmidt view: every cut must be rank one far inside the function's threshold
         t = X.reshape(list(d) + list(d))
         axes = [a for i in range(n) for a in (i, n + i)]
-        t = t.transpose(axes).reshape([k * k for k in d])
-        worst = max(_spacing_ratio(t.reshape(gen.prod(t.shape[: i + 1]), -1)) for i in range(n - 1))
-        if worst > 0.25:
+        if _product_ratio(t.transpose(axes).reshape(-1), [k * k for k in d]) > 0.25:
             raise Inconclusive("product-only-to-rounding")
         out = is_product(X, dim)
         req(bool(np.all(out[0])), f"is_product rejected the Kronecker product of {n} local operators (dims {d})", "is_product_op:rejects-product")
@@ -884,10 +902,13 @@ def nt_isprod_op(case):
 # ------------------------------------------------------------------------------------------------------
 # 9. scalar dim argument where the signature documents `int`
 # ------------------------------------------------------------------------------------------------------
-@st.composite
-def _scalar_dim_case(draw):
-    sp = draw(_state_spec())
-    return {"st": sp, "fn": draw(st.sampled_from(["schmidt_decomposition", "is_product"])), "form": draw(st.sampled_from(["1d", "col", "dm"])), "k": draw(st.integers(0, min(sp["d"])))}
+def _scalar_dim_case(fn):
+    @st.composite
+    def strat(draw):
+        sp = draw(_state_spec())
+        return {"st": sp, "fn": fn, "form": draw(st.sampled_from(["1d", "col", "dm"])), "k": draw(st.integers(0, min(sp["d"])))}
+
+    return strat()
 
 
 def check_scalar_dim(case):
@@ -1002,7 +1023,7 @@ def _sk_case(sdp):
         md = min(d)
         if sdp:
             k = draw(st.integers(1, md - 1))
-            kind = draw(st.sampled_from(["psd", "psd", "proj", "iso", "product"]))
+            kind = draw(st.sampled_from(["psd", "psd", "proj", "iso", "iso", "product"]))
             effort = draw(st.sampled_from([1, 2]))
         else:
             kind = draw(st.sampled_from(["psd", "iso", "rank1", "product", "herm", "general", "proj"]))
@@ -1040,8 +1061,8 @@ def _check_sk(case, sdp):
     tol = (TOL_SDP if sdp else 1e-8) * max(opn, 1e-300)
     tag = f"(dims {d}, k={k}, kind {case['kind']}, effort {case['effort']})"
     req(np.isfinite(lo) and np.isfinite(up), f"non-finite bounds {lo}, {up} {tag}", "sk:nan")
+    req(lo <= opn + tol, f"lower bound {lo} exceeds the operator norm {opn} (upper bound {up}) {tag}", "sk:lower>opnorm")
     req(lo <= up + tol, f"lower bound {lo} > upper bound {up} {tag}", "sk:lower>upper")
-    req(lo <= opn + tol, f"lower bound {lo} exceeds the operator norm {opn} {tag}", "sk:lower>opnorm")
     req(lo >= -tol, f"negative lower bound {lo} {tag}", "sk:lower<0")
     ach = _achieved(X, d, min(k, min(d)), case["aseed"])
     req(ach <= up + tol, f"upper bound {up} is below the value {ach} achieved by explicit vectors of Schmidt rank <= {k} {tag}", "sk:upper<achieved")
@@ -1116,7 +1137,7 @@ def _bp_matrix(case):
             raise Inconclusive("pt-not-negative-by-margin")
         rho = (1 - p) * np.outer(v, v.conj()) + p * np.eye(n) / n
         X = ref.partial_transpose(rho, [1], d)
-        return (X + X.conj().T) / 2, (True if k == 1 else None)
+        return (X + X.conj().T) / 2, (True if k == 1 else (False if k >= min(d) else None))
     if kind == "pt_pure":
         # |psi><psi|^Gamma + eps I : product expectations >= eps; the rank-2 vector (a0 b1* - a1 b0*)/sqrt2 has
         # expectation eps - s0 s1
@@ -1188,14 +1209,15 @@ def check_block_positive_doc(case):
 SUBCHECKS = [
     SubCheck("pure_closed_forms", check_pure_closed_forms, _pure_case, nt_pure, quick=4000, thorough=80000),
     SubCheck("schmidt_rank", check_schmidt_rank, lambda: _schmidt_rank_case(None), nt_schmidt_rank, quick=2400, thorough=40000),
-    SubCheck("schmidt_rank_equal_dims", check_schmidt_rank, lambda: _schmidt_rank_case([(2, 2), (3, 3), (4, 4)]), lambda c: None, quick=1200, thorough=20000),
+    SubCheck("schmidt_rank_equal_dims", check_schmidt_rank, lambda: _schmidt_rank_case([(2, 2), (3, 3), (4, 4)]), nt_schmidt_rank_eq, quick=1200, thorough=20000),
     SubCheck("schmidt_decomposition_vec", check_sd_vec, _sd_vec_case, nt_sd_vec, quick=3000, thorough=60000),
     SubCheck("schmidt_decomposition_op", check_sd_op, _sd_op_case, nt_sd_op, quick=2000, thorough=40000),
     SubCheck("mixed_local_unitary", check_mixed_lu, _mixed_case, nt_mixed, quick=2400, thorough=40000),
     SubCheck("entropy_purity", check_entropy, _entropy_case, nt_entropy, quick=1600, thorough=30000),
     SubCheck("is_product_vec", check_is_product_vec, _isprod_vec_case, nt_isprod_vec, quick=3000, thorough=60000),
     SubCheck("is_product_op", check_is_product_op, _isprod_op_case, nt_isprod_op, quick=1600, thorough=30000),
-    SubCheck("scalar_dim", check_scalar_dim, _scalar_dim_case, nt_scalar_dim, quick=800, thorough=10000),
+    SubCheck("scalar_dim_schmidt_decomposition", check_scalar_dim, lambda: _scalar_dim_case("schmidt_decomposition"), nt_scalar_dim, quick=600, thorough=8000),
+    SubCheck("scalar_dim_is_product", check_scalar_dim, lambda: _scalar_dim_case("is_product"), nt_scalar_dim, quick=600, thorough=8000),
     SubCheck("sk_norm_no_sdp", check_sk_nosdp, lambda: _sk_case(False), nt_sk, quick=1600, thorough=30000, case_timeout=30),
     SubCheck("sk_norm_sdp", check_sk_sdp, lambda: _sk_case(True), nt_sk, quick=96, thorough=1600, case_timeout=30),
     SubCheck("block_positive", check_block_positive, _bp_case, nt_bp, quick=160, thorough=2400, case_timeout=30),
